@@ -19,6 +19,10 @@ Balances live in `PvModel.Ledger` (append-only deltas; meaning = `bal`).  Every 
 context (baseapp runTx / the msg-service router; `Try` in the harness) to drop them — `commit` is that
 step, `sendCoinsRaw` keeps the partial write visible.
 
+The restrictions appended after the marker's are a parameter (`World.later`); `appLater` is the app's
+composition (x/sanction/keeper/send_restriction.go:15, x/quarantine/keeper/send_restriction.go:15).
+`inputOutputCoinsProvMerged` is InputOutputCoinsProv with the merged per-address `sdk.Coins` of the Go text.
+
 Not modelled: denom syntax (`ValidateDenom`), bech32 decoding of Input/Output addresses, events,
 creation of the receiver's base account, vesting delegation tracking.  Core-only.
 -/
@@ -56,6 +60,38 @@ structure World where
 
 /-- No further restriction: the receiver is returned unchanged. -/
 def noLater : Addr → Addr → Coins → Option Addr := fun _ t _ => some t
+
+/-- What the two restrictions the app appends after the marker's read (app/app.go: sanction keeper :681,
+quarantine keeper :720, both `bankKeeper.AppendSendRestriction` in their `NewKeeper`), without their
+context bypasses (`sanction.WithBypass`, `quarantine.WithBypass`: only the modules' own keepers set them). -/
+structure LaterCfg where
+  /-- `sanctionKeeper.IsSanctionedAddr` -/
+  sanctioned : Addr → Bool
+  /-- `quarantineKeeper.IsQuarantinedAddr` (the address opted in) -/
+  quarantined : Addr → Bool
+  /-- `quarantineKeeper.IsAutoAccept(ctx, toAddr, fromAddr)` -/
+  autoAccept : Addr → Addr → Bool
+  /-- `quarantineKeeper.GetFundsHolder()` -/
+  fundsHolder : Addr
+
+/-- x/sanction/keeper/send_restriction.go:15 — a sanctioned SENDER is refused; the receiver is not looked at. -/
+def sanctionRestriction (c : LaterCfg) (f t : Addr) : Option Addr :=
+  if c.sanctioned f then none else some t
+
+/-- x/quarantine/keeper/send_restriction.go:15 — coins for a receiver that opted in (and does not
+auto-accept this sender) go to the funds holder instead (and are recorded as quarantined; that record is
+not a balance).  Sends to oneself and sends by the funds holder pass. -/
+def quarantineRestriction (c : LaterCfg) (f t : Addr) : Option Addr :=
+  if f = t || f = c.fundsHolder then some t
+  else if !c.quarantined t || c.autoAccept t f then some t
+  else some c.fundsHolder
+
+/-- `ComposeSendRestrictions` of the two, in the app's order: sanction, then quarantine on the receiver
+sanction returned. -/
+def appLater (c : LaterCfg) : Addr → Addr → Coins → Option Addr := fun f t _ =>
+  match sanctionRestriction c f t with
+  | none => none
+  | some t' => quarantineRestriction c f t'
 
 /-- `sdk.Coins.Validate` (types/coin.go:233) without the denom-syntax test: amounts positive, denoms
 strictly ascending (each coin compared with the previous one). -/
@@ -220,5 +256,58 @@ def inputOutputCoinsProv (w : World) (l : Ledger) (ins outs : List IO) : Except 
         match restrictAll w (pairs ins outs) with
         | .error e => .error e
         | .ok credits => .ok (creditAll l1 credits)
+
+/-! ### InputOutputCoinsProv as written: one merged `sdk.Coins` per address
+
+`debitPhase` / `creditAll` above work on unmerged coin lists (their meaning is `amountOf`).  The Go code
+keeps a map address → merged `sdk.Coins` plus the order of first appearance, debits each paying address
+once through `subUnlockedCoins` and credits each returned receiver once through `addCoins` (which tests
+`IsValid` again).  The functions below follow that text literally; `PvProofs.C04.inputOutputCoinsProv_merged_same`
+shows both give the same result (same error, or ledgers with the same balances and supply). -/
+
+/-- `amt.Add(coins...)` (types/coins.go `Add` → `safeAdd` + sort + `removeZeroCoins`): one entry per denom,
+ascending denoms, zero amounts dropped. -/
+def coinsAdd (amt coins : Coins) : Coins := Coins.canon (amt ++ coins)
+
+/-- `m[key] = m[key].Add(coins...)`, remembering the order in which keys first appear
+(`inputAmounts`/`inputOrder` send.go:172-186, `outputAmounts`/`outputOrder` :224-230). -/
+def addAmount (a : Addr) (c : Coins) : List (Addr × Coins) → List (Addr × Coins)
+  | [] => [(a, coinsAdd [] c)]
+  | (b, x) :: rest => if b = a then (b, coinsAdd x c) :: rest else (b, x) :: addAmount a c rest
+
+def mergeAmounts (xs : List (Addr × Coins)) : List (Addr × Coins) :=
+  xs.foldl (fun acc p => addAmount p.1 p.2 acc) []
+
+/-- send.go:189-199: `subUnlockedCoins` per paying address, in `inputOrder`. -/
+def debitMerged (w : World) : Ledger → List (Addr × Coins) → Except Err Ledger
+  | l, [] => .ok l
+  | l, (a, amt) :: rest =>
+    match subUnlockedCoins w l a amt with
+    | .error e => .error e
+    | .ok l1 => debitMerged w l1 rest
+
+/-- send.go:259-272: `addCoins` per returned receiver, in `outputOrder`. -/
+def creditMerged : Ledger → List (Addr × Coins) → Except Err Ledger
+  | l, [] => .ok l
+  | l, (a, amt) :: rest =>
+    match addCoins l a amt with
+    | .error e => .error e
+    | .ok l1 => creditMerged l1 rest
+
+/-- `InputOutputCoinsProv` (send.go:152) with the merged maps. -/
+def inputOutputCoinsProvMerged (w : World) (l : Ledger) (ins outs : List IO) : Except Err Ledger :=
+  if ins.isEmpty then .error .noInputs
+  else if outs.isEmpty then .error .noOutputs
+  else if ins.length > 1 && outs.length > 1 then .error .manyToMany
+  else
+    match validateInputsOutputs ins outs with
+    | .error e => .error e
+    | .ok _ =>
+      match debitMerged w l (mergeAmounts (ins.map fun i => (i.addr, i.coins))) with
+      | .error e => .error e
+      | .ok l1 =>
+        match restrictAll w (pairs ins outs) with
+        | .error e => .error e
+        | .ok credits => creditMerged l1 (mergeAmounts credits)
 
 end PvModel.MkrSend.Bank
